@@ -514,6 +514,25 @@ def gen_grid(rng, ver=None, depth=2, small=False):
     return g
 
 
+def shuffled_rows_twin(rng, g):
+    """the same grid, each row dict built with its keys in another order (rows are dicts: their key order is not content)"""
+    h = H()
+    g2 = h.Grid(version=str(g.version))
+    for k, v in g.metadata.items():
+        g2.metadata[k] = v
+    for n, cm in g.column.items():
+        g2.column[n] = dict(cm.items())
+    changed = False
+    for row in g:
+        items = list(row.items())
+        if len(items) > 1:
+            alt = items[::-1] if rng.random() < 0.5 else rng.sample(items, len(items))
+            changed = changed or [k for k, _ in alt] != [k for k, _ in items]
+            items = alt
+        g2.append(dict(items))
+    return g2 if changed else None
+
+
 RESERVED_TAGS = ['meta', 'cols', 'rows', 'ver', 'name', 'id', 'dis']
 
 
